@@ -175,7 +175,69 @@ pub fn draw_sub(r: &mut Prng, f: &FactSet, source: usize, allow_bad: bool) -> Op
     Some(SubSpec { source, root, leaves, hash: (hm, r.next_u64()) })
 }
 
+/// Size thresholds of the library's own limits: more than 65 535 terms (C10) / more than 65 535 records of a kind (C03)
+fn gen_threshold(prop: &str, r: &mut Prng, seed: u64, run: u64) -> Scenario {
+    let mut facts = FactSet::default();
+    let mut ids: std::collections::BTreeSet<u32> = Default::default();
+    if prop == "C10" {
+        let n = r.urange(65_530, 66_200);
+        while ids.len() < n {
+            ids.insert(r.range(1, 9_999_999) as u32);
+        }
+        let v: Vec<u32> = ids.iter().copied().collect();
+        for (k, id) in v.iter().enumerate() {
+            facts.terms.push(crate::facts::TermFact { id: *id, name: format!("t{id}"), obsolete: false, replacement: None });
+            // a shallow forest: every 7th term is a root, the others hang below the previous root
+            if k % 7 != 0 {
+                facts.isa.push((*id, v[k - k % 7]));
+            }
+        }
+        for j in 0..5u32 {
+            facts.omim.push(crate::facts::Rec { id: j + 1, name: format!("disease {j}"), terms: vec![v[j as usize]] });
+        }
+    } else {
+        // a handful of terms, N just below / above u16::MAX for one kind; the library documents an error above it
+        for id in [1u32, 118, 200, 300] {
+            facts.terms.push(crate::facts::TermFact { id, name: format!("t{id}"), obsolete: false, replacement: None });
+        }
+        facts.isa = vec![(118, 1), (200, 118), (300, 200)];
+        let n = *r.pick(&[65_535usize, 65_536, 65_540, 70_000]);
+        let kind = r.usize_below(3);
+        for j in 0..n {
+            let t = match j % 50 {
+                0 => 200,
+                1 | 2 => 300,
+                _ => 118,
+            };
+            let rec = crate::facts::Rec { id: j as u32 + 1, name: format!("r{j}"), terms: vec![t] };
+            match kind {
+                0 => facts.genes.push(rec),
+                1 => facts.omim.push(rec),
+                _ => facts.orpha.push(rec),
+            }
+        }
+    }
+    let mut spec = ReplicaSpec::draw(r, PathKind::Builder);
+    spec.defaults = prop != "C10";
+    spec.dup = crate::channel::Dup::none();
+    if spec.hash.0 == 3 {
+        spec.hash.0 = 0;
+    }
+    let mut replicas = vec![spec];
+    if prop == "C10" {
+        let mut s2 = ReplicaSpec::draw(r, PathKind::Builder);
+        s2.defaults = false;
+        s2.hash.0 = 0;
+        replicas.push(s2);
+    }
+    Scenario { prop: prop.to_string(), seed, run, mode: "size-threshold".into(), facts, replicas, aux_seed: r.next_u64(), ..Default::default() }
+}
+
 pub fn gen_replicas(prop: &str, r: &mut Prng, seed: u64, run: u64, thorough: bool) -> Scenario {
+    let forced = std::env::var("HPOSIM_FORCE_FACTS").map_or(false, |v| v == "threshold");
+    if (prop == "C10" || prop == "C03") && (r.chance(1, if thorough { 20_000 } else { 6_000 }) || forced) {
+        return gen_threshold(prop, r, seed, run);
+    }
     let mut cfg = GenCfg::draw(r);
     cfg.names = cfg.names.min(2); // over-long names are C07's business
     match prop {
@@ -199,6 +261,11 @@ pub fn gen_replicas(prop: &str, r: &mut Prng, seed: u64, run: u64, thorough: boo
             }
             cfg.rec_no_terms = r.chance(1, 2);
             cfg.names = cfg.names.min(1);
+            if r.chance(1, 15) {
+                // annotated terms with more than 30 ancestors
+                cfg.n_terms = r.urange(45, 200);
+                cfg.shape = *r.pick(&[0u8, 0, 2, 3]);
+            }
         }
         "C19" => {
             cfg.std_roots = true;
@@ -236,6 +303,21 @@ pub fn gen_replicas(prop: &str, r: &mut Prng, seed: u64, run: u64, thorough: boo
             facts = f.facts.clone();
         }
     }
+    // debugging aid (unset in every registered command): force a shipped file as the fact source
+    match std::env::var("HPOSIM_FORCE_FACTS").as_deref() {
+        Ok("big") => {
+            if let Some(f) = crate::facts::real_files(true).first() {
+                facts = f.facts.clone();
+            }
+        }
+        Ok("example") => {
+            if let Some(f) = crate::facts::real_files(false).first() {
+                facts = f.facts.clone();
+            }
+        }
+        _ => {}
+    }
+    let huge = facts.terms.len() > 5000;
     let mut drop_terms = vec![];
     if prop == "C19" && r.chance(1, 4) {
         // fault: the fact of a root term (and everything mentioning it) is lost
@@ -269,8 +351,17 @@ pub fn gen_replicas(prop: &str, r: &mut Prng, seed: u64, run: u64, thorough: boo
             paths.push(PathKind::Builder);
         }
     }
+    if huge {
+        // the full ontology: two replicas over the cheap transports only (a transitive text rendering would be
+        // millions of rows), so that a run stays far below the watchdog limit
+        paths = vec![PathKind::Builder, PathKind::BinV3];
+    }
     for p in paths {
         let mut s = ReplicaSpec::draw(r, p);
+        if huge && s.hash.0 == 3 {
+            // the all-keys-collide schedule is quadratic in the set size: not with 8 000 records per term
+            s.hash.0 = 0;
+        }
         if p == PathKind::Builder {
             s.defaults = if prop == "C19" { true } else { std && !r.chance(1, 5) };
         }
@@ -347,6 +438,9 @@ pub fn exec_replicas(ctx: &mut Ctx, s: &Scenario) -> Outcome {
                 out.ontologies += 1;
                 let got = observe(o);
                 out.mixin(digest(&got));
+                if s.mode == "size-threshold" {
+                    ctx.counters.add("probe.size_threshold_ontologies", 1);
+                }
                 ctx.counters.add("probe.spilled_ancestor_sets", u64::from(got.probes.spilled_ancestor_sets));
                 ctx.counters.add("probe.unsorted_groups", u64::from(got.probes.unsorted_groups));
                 let expected = obs_of(&pf, spec.has_defaults());
@@ -368,6 +462,9 @@ pub fn exec_replicas(ctx: &mut Ctx, s: &Scenario) -> Outcome {
                 if lens_owns(prop, "replica-failed") {
                     out.violate(prop, format!("replica-failed({:?})", spec.path), format!("{what}: {} — {e}", b.describe()));
                 } else {
+                    if s.mode == "size-threshold" {
+                        ctx.counters.add("probe.size_threshold_build_refused", 1);
+                    }
                     out.collateral.push(format!("{what}: construction failed: {}", b.describe()));
                 }
                 built.push((b, None, pf));
@@ -382,7 +479,7 @@ pub fn exec_replicas(ctx: &mut Ctx, s: &Scenario) -> Outcome {
                 if built[i].2 == built[j].2 && s.replicas[i].has_defaults() == s.replicas[j].has_defaults() {
                     ctx.counters.add("probe.comparable_replica_pairs", 1);
                     let what = format!("replica{}={} vs replica{}={}|cross", i, s.replicas[i].label(), j, s.replicas[j].label());
-                    for d in diff(a, b, IcCmp::Bits) {
+                    for d in crate::obs::diff_opts(a, b, IcCmp::Bits, true) {
                         out.violate(prop, format!("replicas-differ:{}", class_of(&d)), format!("{what}: {} [{}] {} vs {}", d.field, d.key, crate::obs::clip(&d.a), crate::obs::clip(&d.b)));
                     }
                 }
